@@ -132,6 +132,23 @@ def report(prop, tier, verif_seed, mod, results, errors, wall, n, w, src):
         lines.append(f"VIOLATION property={prop} replay={path}")
         print(f"  oracle={oracle} occurrences={rec['count']} features={v['features']}")
         print("  " + v["detail"].replace("\n", "\n  ")[:1500])
+    # one (unminimised) example per matched known finding, for inspection and for findings/
+    examples = {}
+    for r in results:
+        for kid, ex in r.get("known_examples", {}).items():
+            if kid not in examples or ex["run"] < examples[kid]["run"]:
+                ex["hashseed"] = r["hashseed"]
+                examples[kid] = ex
+    for kid, ex in examples.items():
+        os.makedirs(replay_dir, exist_ok=True)
+        with open(os.path.join(replay_dir, f"{kid}.json"), "w") as f:
+            json.dump({"version": 1, "property": prop, "oracle": ex["violation"]["oracle"],
+                       "known_finding": kid, "tier": tier, "verif_seed": verif_seed,
+                       "run": ex["run"], "seed": ex["seed"], "pythonhashseed": ex["hashseed"],
+                       "repo_head": head, "case": ex["case"], "tape": ex["tape"],
+                       "expected": {"oracle": ex["violation"]["oracle"],
+                                    "detail": ex["violation"]["detail"],
+                                    "features": ex["violation"]["features"]}}, f, indent=1)
     all_known = {k["id"]: k for k in findings.load()}
     for kid, cnt in sorted(known.items()):
         k = all_known.get(kid, {})
